@@ -147,6 +147,25 @@ func ptrBoundAxiom(h Term, w Term) string {
 
 // havocAll forgets every heap; the watermark moves.
 func (x *Exec) havocAll(st *State) {
+	// escaping locals (heap Allocs of the functions on the stack) that no closure has captured yet
+	// cannot be reached by a callee: their contents survive the havoc
+	type keep struct {
+		p *Ptr
+		t types.Type
+		v Val
+	}
+	var kept []keep
+	for _, lc := range st.localCells {
+		if lc.captured {
+			continue
+		}
+		kept = append(kept, keep{lc.p, lc.t, x.loadPtr(st, nil, lc.p, lc.t)})
+	}
+	defer func() {
+		for _, k := range kept {
+			x.storePtr(st, k.p, k.t, k.v)
+		}
+	}()
 	x.bumpWater(st)
 	st.heap = map[string]heapVer{}
 	x.reg.fresh++
@@ -371,7 +390,8 @@ func (x *Exec) typeFacts(st *State, v Val, t types.Type, epoch Term) {
 			x.assume(app(sBool, "<", v.P.Base, epoch))
 		}
 	case KIface:
-		x.assume(app(sBool, "<=", tZero, v.Fs[0].T))
+		// a nil interface has no payload: nil-ness is decided by the type tag alone
+		x.assume(tAnd(app(sBool, "<=", tZero, v.Fs[0].T), tImplies(tEq(v.Fs[0].T, tZero), tEq(v.Fs[1].T, tZero))))
 	case KScalar:
 		if t == nil {
 			return
